@@ -540,6 +540,13 @@ class SubclassGate(_DecisionGate):
         return self.h_pred(self, part)
 
 
+class HTray(Part):
+    """A user-defined kind of Part that is falsy: a container whose __len__ is the number of things in it (0)."""
+
+    def __len__(self):
+        return 0
+
+
 class HPallet(Batch):
     """A user-defined kind of Batch (documented extension point: generate_part_helper may return any Part)."""
 
@@ -552,8 +559,9 @@ class HGen(PartGenerator):
     """Part generator that stamps every leaf part with a harness uid."""
 
     def __init__(self, src_id, values, qualities, batch_sizes, log, scratch=False, batch_sub=False,
-                 batch_nested=False):
+                 batch_nested=False, falsy=False):
         super().__init__(name_prefix=src_id)
+        self.falsy = falsy
         self.batch_sub = batch_sub
         self.batch_nested = batch_nested
         self.scratch = [] if scratch else None
@@ -566,7 +574,7 @@ class HGen(PartGenerator):
     def __deepcopy__(self, memo):
         import copy
         g = HGen(self.src_id, self.values, self.qualities, self.batch_sizes, NULL_LOG, batch_sub=self.batch_sub,
-                 batch_nested=self.batch_nested)
+                 batch_nested=self.batch_nested, falsy=self.falsy)
         memo[id(self)] = g
         # the generator's own state (the base class numbers the parts) travels with the copy; only the log does not
         for k, v in self.__dict__.items():
@@ -577,7 +585,7 @@ class HGen(PartGenerator):
     def _leaf(self, name, n, k, j):
         v = self.values[j % len(self.values)]
         q = self.qualities[j % len(self.qualities)]
-        p = Part(name=name, value=v, quality=q)
+        p = (HTray if self.falsy else Part)(name=name, value=v, quality=q)
         p.huid = f'{self.src_id}:{n}' if k is None else f'{self.src_id}:{n}.{k}'
         p.hseq = n
         p.hsrc = self.src_id
@@ -705,7 +713,7 @@ def build(spec, bus=None, script=True, system=None, known=None):
         if k == 'source':
             gen = cls['HGen'](i, it.get('values', [0]), it.get('qualities', [1]), it.get('batch'), log,
                               scratch=bool(it.get('scratch')), batch_sub=bool(it.get('batch_sub')),
-                              batch_nested=bool(it.get('batch_nested')))
+                              batch_nested=bool(it.get('batch_nested')), falsy=bool(it.get('falsy')))
             kw = {}
             if it.get('budget') is not None:
                 kw['starting_parts'] = it['budget']
